@@ -618,5 +618,5 @@ func TestCheck(t *testing.T) {
 		Rule:        udpsrv.Rule + ". Others: a server-side datagram connection on the in-memory network inside a synctest bubble; the scripted peer injects 1-4 requests (CON/NON, MIDs from sets that include 0/65535 and the MIDs the server itself just used), duplicates them back-to-back, interleaved and around the 247 s lifetime boundary (virtual clock), with handlers that answer piggy-backed (2.05, 2.04, 4.04 or a 5.xx failure), not at all, separately, slowly behind a gate, or only after a request of their own to the peer has been answered (the receive loop is replaced meanwhile), processed by the default loop or a goroutine per message; oracle: a reference de-duplication table over the handler log and the wire log (at most one execution per lifetime epoch, every duplicate answered with the first reply's code/token/options/payload and the duplicate's MID, fresh again after the lifetime, unseen MIDs always executed). Non-trivial = at least one duplicate delivered; distinct by scenario. counter: a datagram connection sends non-confirmable messages of its own while the scripted peer sends confirmable requests whose message IDs are chosen relative to the last own ID seen on the wire (at the counter, inside and at the edge of the window in which the library moves its counter away, thirds and quarters of half the ID space, half the space away); oracle: no own message ID is given to two different messages within the scenario and the connection does not close itself; non-trivial = at least two peer IDs inside the window",
 		Assumptions: []string{"'not again' is asserted only strictly before first arrival + 247 s, 'fresh again' only strictly after the first reply of the epoch + 247 s and a tick (replies to duplicates do not prolong the lifetime)", "a NON request answered by a separate message (not through the response writer) or not at all may be executed again", "goroutine interleavings inside the bubble are chosen by the Go runtime"},
 		Floor:       300,
-	}, eng, counterEngine(t, r), udpsrv.Engine(r, []string{"alias"}, 4, 100))
+	}, eng, counterEngine(t, r), udpsrv.Engine(r, []string{"alias", "twolocal"}, 6, 150))
 }
